@@ -172,7 +172,18 @@ def lift_once(arch, data, addr, variant):
     lifter = (machine.lifter_model_call if variant == "model-call" else machine.lifter)(loc_db)
     ircfg = lifter.new_ircfg()
     try:
-        lifter.add_instr_to_ircfg(instr, ircfg)
+        if variant == "model-call" and instr.delayslot:
+            # the call model of a delay-slot architecture takes the call together with its delay-slot instruction
+            from miasm.core.asmblock import AsmBlock
+            st2, slot = archlab.decode(arch, b"\x00" * instr.l)
+            if st2 != "ok":
+                return "unsupported", instr, None, []
+            slot.offset = addr + instr.l
+            block = AsmBlock(loc_db, loc_db.get_or_create_offset_location(addr))
+            block.lines = [instr, slot]
+            lifter.add_asmblock_to_ircfg(block, ircfg)
+        else:
+            lifter.add_instr_to_ircfg(instr, ircfg)
     except Exception as ex:
         if is_unsupported(ex, instr):
             return "unsupported", instr, None, []
@@ -242,6 +253,18 @@ class C14(c15.RoundTripCheck):
     level_text = ("every decodable sample of an opcode-space enumeration plus curated and random bytes lifted and the "
                   "resulting IRCFG inspected structurally")
     technique = "structural invariant checking of lifter output over enumerated and random machine code"
+
+    def begin(self, res, arch, tier):
+        # some semantic functions print() warnings ("implemented as NOP"); keep the worker's output clean
+        import os
+        import sys
+        self._saved_stdout = sys.stdout
+        sys.stdout = open(os.devnull, "w")
+
+    def end(self, res, arch, tier):
+        import sys
+        sys.stdout.close()
+        sys.stdout = self._saved_stdout
 
     def one(self, res, arch, stratum, data, state):
         st, probe = archlab.decode(arch, data)
